@@ -177,6 +177,13 @@ def main():
                     kf_seen.append(j.kf)
                 elif r.status == "ok":
                     log("note: known finding %s no longer reproduces on this tree" % j.kf)
+                elif r.status == "timeout" or "out of memory" in r.note:
+                    # the witness was not re-decided within this run's budget: the finding stays listed (the file is never
+                    # changed at run time) and its region stays carved out
+                    kf = [k for k in core.load_known_findings() if k["id"] == j.kf][0]
+                    log("KNOWN-FINDING: property=%s %s [%s] (witness not re-run within the run budget)" % (prop, kf["what"], j.kf))
+                    kf_seen.append(j.kf)
+                    undecided.append((j.name, r.status + " " + r.note))
                 else:
                     inconclusive.append((j.name, r.status + " " + r.note))
                 continue
